@@ -13,6 +13,16 @@ package main
 var supportRules = map[string]func(*Report){
 	"handover-owners":               ruleHandoverOwners,
 	"errors-not-dropped":            ruleErrorsNotDropped,
+	"gc-single-handover":            ruleGCSingleHandover,
+	"disk-read-fresh":               ruleDiskReadFresh,
+	"oob-by-offset":                 ruleOOBByOffset,
+	"flush-waits":                   ruleFlushWaits,
+	"flush-writes":                  ruleFlushWrites,
+	"copy-complete":                 ruleCopyComplete,
+	"remap-pool-fresh":              ruleRemapPoolFresh,
+	"notice-owners":                 ruleNoticeOwners,
+	"decoder-total":                 ruleDecoderTotal,
+	"commit-stops":                  ruleCommitStops,
 	"record-readers":                ruleRecordReaders,
 	"snapshot-covers":               ruleSnapshotCovers,
 	"gc-start-order":                ruleGCStartOrder,
@@ -141,14 +151,14 @@ var supportRules = map[string]func(*Report){
 // rule groups
 var (
 	grpMap = []string{"keycheck", "samevalue-guard", "opaque-value", "immutable-noeffect", "pool-order", "predict", "splice", "pos-codec",
-		"iterate-all", "config-wiring", "index-names-new-location", "pos-width", "location-after-rollover", "bad-index-removal", "absent-justified", "error-wrap", "getsize", "pool-readers", "limit-component", "data-file-writers", "iter-errors", "list-alias", "put-section", "buckets-bounds", "slice-guard", "errors-not-dropped", "bucket-writers", "match-last", "fncb-summary", "record-readers"}
-	grpGC = []string{"gc-mark-guard", "primary-mark", "retain", "reloc-binding", "gc-flush-first", "gc-not-current", "free-after-index", "togc",
+		"iterate-all", "config-wiring", "index-names-new-location", "pos-width", "location-after-rollover", "bad-index-removal", "absent-justified", "error-wrap", "getsize", "pool-readers", "limit-component", "data-file-writers", "iter-errors", "list-alias", "put-section", "buckets-bounds", "slice-guard", "errors-not-dropped", "bucket-writers", "match-last", "fncb-summary", "record-readers", "disk-read-fresh", "oob-by-offset", "decoder-total"}
+	grpGC = []string{"gc-single-handover", "gc-mark-guard", "primary-mark", "retain", "reloc-binding", "gc-flush-first", "gc-not-current", "free-after-index", "togc",
 		"deleted-check", "header-before-remove", "firstfile-guard", "merge-framing", "span-pair", "rescan-applies-all", "freelist-consume",
 		"scan-complete-before-truncate", "scan-framing", "reloc-keys", "header-preserved", "cancel-not-completion", "completion", "reap-true-means-empty", "mark-file-matches", "bucket-scan-covers", "bounds-from-same-file", "entry-applied", "handover-owners"}
-	grpPools = []string{"atomic-rmw", "pool-swap", "lookup-both-pools", "published-bytes-immutable", "pool-values-fresh", "bucket-after-write", "pool-flush-complete", "flush-nowork", "put-section", "buckets-bounds"}
+	grpPools = []string{"flush-waits", "flush-writes", "atomic-rmw", "pool-swap", "lookup-both-pools", "published-bytes-immutable", "pool-values-fresh", "bucket-after-write", "pool-flush-complete", "flush-nowork", "put-section", "buckets-bounds"}
 	// a writer blocked by the rate limiter must be woken: "every call returns"
-	grpBackpressure = []string{"notify", "notify-reset", "wait-protocol", "flusher", "lock-balanced", "lock-paths", "completion"}
-	grpOrder        = []string{"commit-order", "flush-callers", "header-persist", "header-preserved", "close-reports-errors", "rollover-switch", "flush-ack", "header-renames", "cancel-not-completion", "sticky-error", "flush-error-returned", "errors-not-dropped", "bucket-writers", "snapshot-covers"}
+	grpBackpressure = []string{"notice-owners", "notify", "notify-reset", "wait-protocol", "flusher", "lock-balanced", "lock-paths", "completion"}
+	grpOrder        = []string{"commit-order", "flush-callers", "header-persist", "header-preserved", "close-reports-errors", "rollover-switch", "flush-ack", "header-renames", "cancel-not-completion", "sticky-error", "flush-error-returned", "errors-not-dropped", "bucket-writers", "snapshot-covers", "flush-waits", "flush-writes", "commit-stops"}
 	grpFormat       = []string{"layout", "predict", "pos-codec", "rollover-siblings", "strip-whole-bytes", "scan-framing", "pos-width", "location-after-rollover", "open-length", "index-open-limit", "append-flags", "limit-component", "data-file-writers", "completion"}
 	grpCache        = []string{"fc-close-guard", "fc-identity", "fc-refs", "fc-removed-writes", "fc-shrink", "fc-locked", "fc-client", "fc-unknown-closed", "fc-drop-all", "fc-list-nonnil", "fc-open-returns", "file-leak"}
 )
